@@ -20,6 +20,8 @@ AcceptsOf(kind, obj, w) ==
   CASE kind \in {"dfa", "nfa"} -> AcceptsBySubsets(FaOf(obj), w)
     [] kind = "re" -> Matches(obj, w)
     [] kind = "cfg" -> CfgAccepts(CfgOf(obj), w)
+    [] kind = "pda" -> PdaAccepts(PdaOf(obj), w)
+    [] kind = "tm" -> Verdict(TmOf(obj), w, 1000) = "true"
 
 NStates(kind, obj) == IF kind \in {"dfa", "nfa", "pda", "tm"} THEN Len(obj.Q) ELSE 0
 
